@@ -96,10 +96,10 @@ su_harness! {
                 assert!(*bs.shares == dec(bal, 0));
                 let c = logged_div(0, dec(acb, 2), dec(bal, 0));
                 assert!(*bs.amount_per_share == c);
-                // cost of the summary purchase = c * balance, within balance * 1e-6 of ACB (model digits)
+                // cost of the summary purchase = c * balance, within balance * 1e-6 of ACB
+                // (model digits; c is the rounded quotient)
                 let cost = c * dec(bal, 0);
-                assert!(cost <= dec(acb, 2));
-                assert!(dec(acb, 2) - cost <= dec(bal, 6));
+                assert!((dec(acb, 2) - cost).abs() <= dec(bal, 6));
                 assert!(bs.tx_currency_and_rate.is_default() && bs.separate_commission_currency.is_none());
             }
             _ => assert!(false, "summary row is not a Buy"),
